@@ -22,6 +22,7 @@ type RowP struct {
 		Right    []int `json:"right"`
 		Trim     bool  `json:"trim"`
 		WideText bool  `json:"wideText"`
+		Req      int   `json:"req"`
 	} `json:"p"`
 	Avail   int `json:"avail"`
 	Written int `json:"written"`
@@ -57,6 +58,9 @@ func rowWidth(r *RowP) (int, string, bool) {
 	opts := []mpb.BarOption{mpb.PrependDecorators(l...), mpb.AppendDecorators(rr...)}
 	if r.P.Trim {
 		opts = append(opts, mpb.BarFillerTrim())
+	}
+	if r.P.Req != 0 {
+		opts = append(opts, mpb.BarWidth(r.P.Req))
 	}
 	bar := p.AddBar(10, opts...)
 	bar.IncrBy(3)
@@ -124,8 +128,15 @@ func TestRowLayout(t *testing.T) {
 			written += 2
 		}
 		want := written
-		if avail >= 2 {
-			want += avail
+		fillw := r.P.Req // what the filler is given: the requested width when it is positive and fits
+		if fillw == 0 {
+			fillw = r.P.Tw
+		}
+		if fillw < 1 || fillw > avail {
+			fillw = avail
+		}
+		if fillw >= 2 {
+			want += fillw
 		}
 		switch {
 		case !ok:
